@@ -189,7 +189,10 @@ class FnEval:
                 if rb is not None and rb not in blocks:
                     ok = False
             if eto != bi:
-                ok = ok and False if any(True for (l, rb) in reads + greads) else ok
+                # the guarded value may only be reused further down when it reads nothing that can change: parameters
+                # that are never assigned in this body are fine, any other multiply-defined local is not
+                if any(self.b.defs().get(l) for (l, rb) in reads + greads):
+                    ok = False
             if not ok:
                 continue
             res = (lo, hi) if res is None else (max(res[0], lo), min(res[1], hi))
